@@ -599,6 +599,9 @@ func runC06(ctx *core.Ctx) {
 	case "options":
 		streamPasteOptions(ctx)
 		return
+	case "missingpd":
+		streamPasteMissingProjDir(ctx)
+		return
 	case "envfile":
 		streamEnvFromFile(ctx)
 		streamCloneOptions(ctx)
@@ -617,6 +620,7 @@ func runC06(ctx *core.Ctx) {
 	streamApplySourceKinds(ctx)
 	streamPaste(ctx)
 	streamPasteOptions(ctx)
+	streamPasteMissingProjDir(ctx)
 	streamEnvFromFile(ctx)
 	streamCloneOptions(ctx)
 }
@@ -1368,6 +1372,24 @@ func streamPasteOptions(ctx *core.Ctx) {
 		a := pasteArgs(g, "compose.yaml", entries, c06Envs[ctx.Rng.Intn(len(c06Envs))], "paste", "options-partition")
 		a.Opts = o
 		ctx.Add("c06.paste", a)
+	}
+}
+
+// streamPasteMissingProjDir: a relative project_directory that is not an existing directory (absent, or a regular
+// file).  localResourceLoader.Dir answers the parent of such a path: the included model's paths are resolved against
+// the parent, not against the declared project directory  (finding, see findings/C06.txt and Neg/C06.lean).
+func streamPasteMissingProjDir(ctx *core.Ctx) {
+	for variant := 0; variant < 8; variant++ {
+		g := newGen(ctx, true)
+		pd := []string{"nodir", "deep/nodir"}[variant/4]
+		if variant%2 == 1 {
+			g.s.Files[pd] = "a regular file\n"
+		}
+		inc := map[string]any{"services": map[string]any{"b": map[string]any{"image": "b", "build": map[string]any{"context": "./ctx"}}}}
+		g.s.AddYAML("sub/inc.yaml", variant/2%2, inc)
+		g.s.AddYAML("compose.yaml", 0, map[string]any{"include": []any{map[string]any{"path": "sub/inc.yaml", "project_directory": pd}}, "services": map[string]any{"a": svc("a")}})
+		ctx.Count("paste:missing-project_directory")
+		ctx.Add("c06.paste", pasteArgs(g, "compose.yaml", []c06lib.Entry{{Paths: []string{"sub/inc.yaml"}, ProjDir: pd}}, nil, "paste", "missing-project_directory"))
 	}
 }
 
